@@ -417,4 +417,30 @@ def sampleConfigId (w : World) (simulFile : String) : World :=
   let nm := simulPathOf simulFile
   { w with configId := (w.mtime nm).getD 0, simulPath := nm }
 
+/-! ## (e) the patch list: which switches `save_binary` will convert -/
+
+/-- what the code generator sees while it compiles one file, in order -/
+inductive GenEv where
+  | pragmaSaveBinary (on : Bool)            -- `#pragma save_binary` / `#pragma no_save_binary`
+  | stringSwitch (site : Nat)               -- NODE_SWITCH_STRINGS generated; F_SWITCH at program offset `site`
+  | otherSwitch (site : Nat)                -- NODE_SWITCH_NUMBERS / _DIRECT / _RANGES
+  deriving Repr, BEq, DecidableEq
+
+/-- `i_generate_node`: `if (expr->kind == NODE_SWITCH_STRINGS) add_to_mem_block (A_PATCH, &sw, sizeof sw)` — for every
+    string switch, whatever the pragma state at that moment -/
+def genPatches : List GenEv → List Nat
+  | [] => []
+  | .stringSwitch site :: rest => site :: genPatches rest
+  | _ :: rest => genPatches rest
+
+/-- the F_SWITCH instructions with string tables in the generated program -/
+def stringSwitchSites : List GenEv → List Nat
+  | [] => []
+  | .stringSwitch site :: rest => site :: stringSwitchSites rest
+  | _ :: rest => stringSwitchSites rest
+
+/-- `epilog`: the program is saved iff `pragmas & PRAGMA_SAVE_BINARY` at the END of the file -/
+def savedAtEnd (evs : List GenEv) : Bool :=
+  evs.foldl (fun st e => match e with | .pragmaSaveBinary on => on | _ => st) false
+
 end NV.C17
